@@ -36,6 +36,7 @@ class StepMonitor(object):
         self.failpoint_at = None  # raise `failpoint_exc` when count reaches this (fault injection)
         self.failpoint_exc = None
         self.failpoint_filter = None
+        self.failpoint_seen = 0
 
     def install(self):
         if self.installed:
@@ -59,10 +60,13 @@ class StepMonitor(object):
         if not self.active:
             return None
         self.count += 1
-        if self.failpoint_at is not None and self.count >= self.failpoint_at and (
-                self.failpoint_filter is None or self.failpoint_filter(code, line)):
-            self.failpoint_at = None
-            raise self.failpoint_exc
+        if self.failpoint_at is not None and (self.failpoint_filter is None or self.failpoint_filter(code, line)):
+            # the failpoint counts only the line events of the code it targets (its k-th line), so that a late
+            # stage is reached even when earlier stages consume most of the events
+            self.failpoint_seen += 1
+            if self.failpoint_seen >= self.failpoint_at:
+                self.failpoint_at = None
+                raise self.failpoint_exc
         if self.budget is not None and self.count > self.budget * 0.9:
             self.hot[(fn[len(self.root):], line)] += 1
             if self.count > self.budget:
@@ -74,6 +78,7 @@ class StepMonitor(object):
         """-> (outcome, value, steps); outcome in returned / raised / budget / watchdog"""
         self.install()
         self.count, self.budget, self.exceeded = 0, budget, False
+        self.failpoint_seen = 0
         self.hot.clear()
 
         def on_alarm(signum, frame):
